@@ -277,7 +277,7 @@ class SimOps:
             if len(n.outs) > 0:
                 self.c_locs[self.ppi_offset + i], self.c_caps[self.ppi_offset + i] = h.alloc(c_caps_min), c_caps_min
                 ref_count[self.ppi_offset + i] += 1
-            if len(n.ins) > 0:
+            if len(n.ins) > 0 and n.ins[0] is not None:
                 i0_idx = stems[n.ins[0]] if stems[n.ins[0]] >= 0 else n.ins[0]
                 ref_count[i0_idx] += 1
 
@@ -313,8 +313,10 @@ class SimOps:
 
         # copy memory location to PO/PPO area
         for i, n in enumerate(circuit.s_nodes):
-            if len(n.ins) > 0:
+            if len(n.ins) > 0 and n.ins[0] is not None:
                 self.c_locs[self.ppo_offset + i], self.c_caps[self.ppo_offset + i] = self.c_locs[n.ins[0]], self.c_caps[n.ins[0]]
+            elif i >= len(circuit.io_nodes):  # flip-flop or latch without data connection: captures the constant 0
+                self.c_locs[self.ppo_offset + i], self.c_caps[self.ppo_offset + i] = self.c_locs[self.zero_idx], self.c_caps[self.zero_idx]
 
         self.c_len = h.max_size
 
